@@ -23,6 +23,8 @@ def main(tier, seed):
     ]
     rep = profcheck.run(PROP, tier, seed, plan, feature=throws)
     bins = [("dev", vlib.build_harness("dev")), ("release", vlib.build_harness("release"))]
+    import tracevm
+    rep.coverage["tracevm_selftest_rejected"] = tracevm.selftest(bins[0][1])
     profcheck.run_scenarios(rep, "exception", scenarios.exception_scenarios(), bins, PROP)
     profcheck.run_scenarios(rep, "exitpaths", scenarios.exit_path_scenarios(), bins, PROP)
     rep.coverage["exhaustive"] = True
